@@ -187,7 +187,10 @@ func clientOffers(i *IPC, w http.ResponseWriter, r *http.Request) {
 			w.WriteHeader(http.StatusGatewayTimeout)
 			return
 		default:
-			panic("unknown error")
+			// Any other error (for example an invalid NAT type or
+			// an undecodable request) is the client's fault.
+			w.WriteHeader(http.StatusBadRequest)
+			return
 		}
 	}
 
